@@ -1011,7 +1011,7 @@ func (ctx *Context) evaluate() {
 				return
 			}
 
-			ret := result.Clone()
+			ret := result.CloneDeep() // 回调可能每次返回同一个数组/字典；脚本对结果的修改不能传回回调手里的对象
 			if len(details) > 0 {
 				detail := &details[len(details)-1]
 				detail.Ret = ret
